@@ -1,11 +1,41 @@
 package main
 
-// Lock ghost state.  A mutex is a struct-valued field; its ghost "held" flag
-// lives in the heap LK$<root.path> : owner ref -> Bool.
+// Lock regions (monitor invariants).
+//
+//   //@ guarded collection.m: stackDirtyTop, stackDirtyMid, ...
+//   //@ lock-invariant collection.m: <expr over self>
+//
+// Lock():   the guarded fields of the owner are havocked (other threads may
+//           have changed them while the lock was free) and the invariant is
+//           assumed; the state is remembered for atAcquire(e).
+// Unlock(): the invariant is an obligation; so are the `unlock n:` clauses
+//           of the function's contract (n = ordinal of the Unlock site).
+// Wait():   Unlock followed by Lock.
+// Every access to a guarded field of an object that existed at entry is an
+// obligation held(owner.m) (guarded-by discipline).
 
 import (
+	"fmt"
 	"go/types"
+	"strings"
+
+	"golang.org/x/tools/go/ssa"
 )
+
+type lockSpec struct {
+	key     string   // "collection.m"
+	typ     string   // "collection"
+	mutex   string   // "m"
+	fields  []string // guarded field names
+	inv     []*Clause
+	heapSet map[string]bool // heap names of guarded fields
+}
+
+type heldLock struct {
+	spec *lockSpec
+	ref  string
+	loc  *Loc
+}
 
 func (e *Engine) lockHeap(fr *Frame, l *Loc) string {
 	name := "LK$" + l.heapName()
@@ -15,6 +45,52 @@ func (e *Engine) lockHeap(fr *Frame, l *Loc) string {
 	return name
 }
 
+func (e *Engine) lockSpecFor(l *Loc) *lockSpec {
+	if l == nil || l.kind != locField || len(l.path) == 0 {
+		return nil
+	}
+	key := strings.TrimPrefix(l.root, "F$") + "." + strings.Join(l.path, ".")
+	return e.locks[key]
+}
+
+func (e *Engine) initLocks() error {
+	e.locks = map[string]*lockSpec{}
+	e.guardedBy = map[string]*lockSpec{}
+	for _, g := range e.cf.Guarded {
+		ls := e.locks[g.Key]
+		if ls == nil {
+			parts := strings.SplitN(g.Key, ".", 2)
+			if len(parts) != 2 {
+				return fmt.Errorf("bad lock key %q", g.Key)
+			}
+			ls = &lockSpec{key: g.Key, typ: parts[0], mutex: parts[1], heapSet: map[string]bool{}}
+			e.locks[g.Key] = ls
+		}
+		ls.fields = append(ls.fields, g.Fields...)
+		ls.inv = append(ls.inv, g.Inv...)
+		t := e.parseType(ls.typ)
+		if t == nil || structOf(t) == nil {
+			return fmt.Errorf("guarded %s: unknown struct type", g.Key)
+		}
+		for _, f := range g.Fields {
+			obj, _, _ := types.LookupFieldOrMethod(t, true, e.tpkg, f)
+			fv, ok := obj.(*types.Var)
+			if !ok {
+				return fmt.Errorf("guarded %s: no field %s", g.Key, f)
+			}
+			base := &Loc{kind: locField, root: e.fieldRoot(t), path: []string{f}, typ: fv.Type()}
+			for _, leaf := range leafLocs(base) {
+				ls.heapSet[leaf.heapName()] = true
+				e.guardedBy[leaf.heapName()] = ls
+				e.heapSorts[leaf.heapName()] = arrSort(sortOf(leaf.typ))
+			}
+		}
+	}
+	return nil
+}
+
+func (fr *Frame) heldList() *[]*heldLock { return &fr.topFrame().held }
+
 func (e *Engine) lockOp(fr *Frame, m *Val, acquire bool) {
 	if m.loc == nil || m.loc.kind != locField {
 		fr.vc.abstracted("lock operation on a mutex that is not a struct field")
@@ -22,14 +98,107 @@ func (e *Engine) lockOp(fr *Frame, m *Val, acquire bool) {
 	}
 	name := e.lockHeap(fr, m.loc)
 	h := fr.vc.heapGet(fr.st, name)
+	spec := e.lockSpecFor(m.loc)
 	if acquire {
 		fr.vc.heapSet(fr.st, name, sto(h, m.loc.ref, "true"))
-		e.onAcquire(fr, m.loc)
+		if spec != nil {
+			e.acquire(fr, spec, m.loc)
+		}
 	} else {
 		fr.oblige("lock", fr.ordName("unlock/held"), sel(h, m.loc.ref))
-		e.onRelease(fr, m.loc)
+		if spec != nil {
+			e.release(fr, spec, m.loc, true)
+		}
 		h = fr.vc.heapGet(fr.st, name)
 		fr.vc.heapSet(fr.st, name, sto(h, m.loc.ref, "false"))
+	}
+}
+
+// acquire: havoc the guarded fields of the owner, assume the invariant.
+func (e *Engine) acquire(fr *Frame, spec *lockSpec, l *Loc) {
+	vc := fr.vc
+	t := e.parseType(spec.typ)
+	for _, f := range spec.fields {
+		obj, _, _ := types.LookupFieldOrMethod(t, true, e.tpkg, f)
+		fv := obj.(*types.Var)
+		base := &Loc{kind: locField, ref: l.ref, root: e.fieldRoot(t), path: []string{f}, typ: fv.Type()}
+		for _, leaf := range leafLocs(base) {
+			if sortOf(leaf.typ) == "" {
+				continue
+			}
+			hn := vc.registerHeap(leaf)
+			hh := vc.heapGet(fr.st, hn)
+			nv := fr.havocVal(leaf.typ, "acq_"+f)
+			vc.heapSet(fr.st, hn, sto(hh, l.ref, nv.t))
+		}
+	}
+	self := &Val{t: l.ref, sort: sInt, typ: types.NewPointer(t)}
+	fr.assumeGlobalInvariants()
+	for _, inv := range spec.inv {
+		tt, err := fr.evalClause(inv, &evalCtx{fr: fr, st: fr.st, old: fr.st, names: map[string]*Val{"self": self}, callee: "lock-invariant", assuming: true})
+		if err != nil {
+			fr.stale("lock-invariant "+spec.key, err)
+			continue
+		}
+		fr.assume(tt)
+	}
+	top := fr.topFrame()
+	top.held = append(top.held, &heldLock{spec: spec, ref: l.ref, loc: l})
+	top.regionSt = fr.st.clone()
+	top.nAcquire++
+}
+
+// release: the invariant (and the unlock clauses of the contract) must hold.
+func (e *Engine) release(fr *Frame, spec *lockSpec, l *Loc, isUnlock bool) {
+	t := e.parseType(spec.typ)
+	self := &Val{t: l.ref, sort: sInt, typ: types.NewPointer(t)}
+	top := fr.topFrame()
+	top.nUnlock++
+	n := top.releaseOrdinal(fr)
+	kind := "unlock"
+	if !isUnlock {
+		kind = "wait"
+	}
+	for i, inv := range spec.inv {
+		tt, err := fr.evalClause(inv, &evalCtx{fr: fr, st: fr.st, old: fr.entry, names: map[string]*Val{"self": self}, callee: "lock-invariant", region: top.regionSt})
+		if err != nil {
+			fr.stale("lock-invariant "+spec.key, err)
+			continue
+		}
+		fr.oblige("lock-inv", fmt.Sprintf("%s#%d/%s", kind, n, clauseName("inv", i, inv)), tt)
+	}
+	if top.contract != nil {
+		for i, uc := range top.contract.Unlocks {
+			if uc.Ord != n {
+				continue
+			}
+			tt, err := fr.evalClause(uc.C, &evalCtx{fr: fr, st: fr.st, old: fr.entry, names: top.topNames, region: top.regionSt})
+			if err != nil {
+				fr.stale(fmt.Sprintf("%s#%d/%s", kind, n, clauseName("region", i, uc.C)), err)
+				continue
+			}
+			fr.oblige("region", fmt.Sprintf("%s#%d/%s", kind, n, clauseName("region", i, uc.C)), tt)
+		}
+	}
+	// drop from the held list
+	for i := len(top.held) - 1; i >= 0; i-- {
+		if top.held[i].ref == l.ref && top.held[i].spec == spec {
+			top.held = append(top.held[:i], top.held[i+1:]...)
+			break
+		}
+	}
+}
+
+// condWait: Unlock + Lock on every lock currently held by the frame.
+func (e *Engine) condWait(fr *Frame) {
+	top := fr.topFrame()
+	hs := append([]*heldLock{}, top.held...)
+	if len(hs) == 0 {
+		fr.vc.abstracted("Cond.Wait with no modelled lock held")
+	}
+	for _, h := range hs {
+		e.release(fr, h.spec, h.loc, false)
+		e.acquire(fr, h.spec, h.loc)
 	}
 }
 
@@ -49,8 +218,100 @@ func isSyncType(t types.Type) bool {
 	return n.Obj().Pkg().Path() == "sync"
 }
 
-// region hooks (monitor invariants); filled in by regions.go
-func (e *Engine) onAcquire(fr *Frame, l *Loc) {}
-func (e *Engine) onRelease(fr *Frame, l *Loc) {}
+// guardedCheck: accesses to guarded fields need the lock, except on objects
+// created by the function itself (construction).
+func (e *Engine) guardedCheck(fr *Frame, l *Loc, write bool) {
+	if l == nil || l.kind != locField || len(e.guardedBy) == 0 {
+		return
+	}
+	for _, leaf := range leafLocs(l) {
+		spec := e.guardedBy[leaf.heapName()]
+		if spec == nil {
+			continue
+		}
+		t := e.parseType(spec.typ)
+		ml := &Loc{kind: locField, ref: l.ref, root: e.fieldRoot(t), path: strings.Split(spec.mutex, "."), typ: nil}
+		name := "LK$" + ml.heapName()
+		if _, ok := fr.vc.heapSort[name]; !ok {
+			fr.vc.heapSort[name] = arrSort(sBool)
+		}
+		held := sel(fr.vc.heapGet(fr.st, name), l.ref)
+		what := "read"
+		if write {
+			what = "write"
+		}
+		fieldName := strings.TrimPrefix(leaf.heapName(), e.fieldRoot(t)+".")
+		fr.oblige("guarded", fr.ordName("guarded/"+what+" "+spec.typ+"."+fieldName), or(held, app(">", l.ref, fr.topFrame().entry.alloc)))
+		return
+	}
+}
 
-func (e *Engine) guardedCheck(fr *Frame, l *Loc, write bool) {}
+var _ = ssa.Value(nil)
+
+// condSignal records that the condition variable was signalled in this region.
+func (e *Engine) condSignal(fr *Frame, c *Val) {
+	name := "CV$signalled"
+	if _, ok := fr.vc.heapSort[name]; !ok {
+		fr.vc.heapSort[name] = arrSort(sBool)
+	}
+	h := fr.vc.heapGet(fr.st, name)
+	fr.vc.heapSet(fr.st, name, sto(h, fr.scalar(c), "true"))
+}
+
+// releaseOrdinal: the source-order ordinal (1-based) of the Unlock()/Wait()
+// call site being executed among those of the verified function; 0 for
+// sites inside inlined callees.
+func (top *Frame) releaseOrdinal(fr *Frame) int {
+	if fr != top || fr.curInstr == nil {
+		return 0
+	}
+	if top.relOrd == nil {
+		top.relOrd = map[ssa.Instruction]int{}
+		var sites []ssa.Instruction
+		for _, b := range top.fn.Blocks {
+			for _, in := range b.Instrs {
+				var cc *ssa.CallCommon
+				switch x := in.(type) {
+				case *ssa.Call:
+					cc = x.Common()
+				case *ssa.Defer:
+					cc = x.Common()
+				}
+				if cc == nil {
+					continue
+				}
+				if f := cc.StaticCallee(); f != nil {
+					switch top.eng.externalName(f) {
+					case "(*sync.Mutex).Unlock", "(*sync.RWMutex).Unlock", "(*sync.RWMutex).RUnlock", "(*sync.Cond).Wait":
+						sites = append(sites, in)
+					}
+				}
+			}
+		}
+		for i := 0; i < len(sites); i++ {
+			for j := i + 1; j < len(sites); j++ {
+				if sites[j].Pos() < sites[i].Pos() {
+					sites[i], sites[j] = sites[j], sites[i]
+				}
+			}
+		}
+		for i, s := range sites {
+			top.relOrd[s] = i + 1
+		}
+	}
+	return top.relOrd[fr.curInstr]
+}
+
+// loopHasWait: the loop body calls (*sync.Cond).Wait.
+func (e *Engine) loopHasWait(li *loopInfo) bool {
+	for b := range li.blocks {
+		for _, in := range b.Instrs {
+			if c, ok := in.(*ssa.Call); ok {
+				if f := c.Common().StaticCallee(); f != nil && e.externalName(f) == "(*sync.Cond).Wait" {
+					return true
+				}
+			}
+		}
+	}
+	return false
+}
